@@ -886,7 +886,20 @@ func (db *DB) Jget(key, id, path string, hasPath bool) Reply {
 		if o.Spatial {
 			return Reply{Unsupported: true}
 		}
-		return Reply{RESP: t38.Bulk(string(x)), JOK: true, J: map[string]any{"value": string(x)}}
+		// JGET renders a number the way gjson's String() does: integers as
+		// written, everything else re-formatted in shortest 'f' notation
+		txt := string(x)
+		isInt := true
+		for i := 0; i < len(txt); i++ {
+			if (txt[i] < '0' || txt[i] > '9') && !(i == 0 && txt[i] == '-') {
+				isInt = false
+			}
+		}
+		if !isInt {
+			f, _ := x.Float64()
+			txt = strconv.FormatFloat(f, 'f', -1, 64)
+		}
+		return Reply{RESP: t38.Bulk(txt), JOK: true, J: map[string]any{"value": txt}}
 	case bool:
 		s := strconv.FormatBool(x)
 		return Reply{RESP: t38.Bulk(s), JOK: true, J: map[string]any{"value": s}}
